@@ -16,9 +16,9 @@ Inductive case :=
 (* Address::from_bytes(bs) with a type-8 header: the Byron content, or the error class *)
 | CAddr (bs : list Z) (res : outcome (list Z * Z)).
 
-Definition m_from_bytes := from_bytes_unchecked skip_item.
+Definition m_from_bytes := from_bytes skip_item.
 Definition m_address_from_bytes (bs : list Z) : outcome (list Z * Z) :=
-  match address_from_bytes_unchecked skip_item bs with
+  match address_from_bytes skip_item bs with
   | Ok (C18.Model.Byron p c) => Ok (p, c)
   | Ok _ => Err (-1)
   | Err e => Err e
